@@ -33,6 +33,8 @@ fn main() {
     ctrlc::set_handler(move || {
         if renamify_core::interrupt::confirmation_prompt_active() {
             eprintln!("\nOperation cancelled by user.");
+            // process::exit from this thread skips destructors: release the workspace lock here
+            renamify_core::lock::release_held_lock_for_exit();
             process::exit(130);
         }
 
